@@ -456,6 +456,14 @@ def check(facts, rep, tier, cfg):
                         "copies a field from the previous identity (%s)" % loc_str(carried[0]["loc"]) if carried else "is not the freshly built configuration"))
         else:
             rep.ok("C17.R7", "reload-replaces-identity/%s" % b.path.split("::{")[0], where, "store(Arc::new(fresh config)), nothing carried over")
+    for b in crate.bodies:
+        root = b
+        if "/src/tls/" in b.file and "reload_tls_identity" in b.path and b.path.endswith("::{closure#0}"):
+            if any(callee(t) and callee(t)["name"] == "store" and "ArcSwap" in callee(t)["def"] + callee(t)["path"] for _, t in b.calls()):
+                rep.ok("C17.R7", "reload-stores/%s" % b.path.split("::{")[0], "%s (%s)" % (loc_str(b.loc), b.path), "the new identity is published")
+            else:
+                rep.bad("C17.R7", "reload-stores/%s" % b.path.split("::{")[0], "%s (%s)" % (loc_str(b.loc), b.path),
+                        "the reload builds a new identity but never stores it into the shared handle: later handshakes keep seeing the old certificate / client CA")
     if "server" in crate.features:
         rep.floor("C17.R7", "identity reload functions", k7, 1)
 
